@@ -14,9 +14,10 @@ Model-free oracle (the property itself):
           raised
   opcode  pickletools.genops over opcode.encode() yields that opcode with that argument and nothing is
           left over, or encode() raised
-The model describes the REPAIRED Int/ConstantInt.validate (notes/fix_int_validate.patch).  On a tree
-without the patch every disagreement must disappear when exactly those two validators are wrapped with
-the repaired type test; it is then reported as known finding D7 (signature int-validate-coerces)."""
+The model describes the tree with D7 (Int/ConstantInt.validate) and the D13 encoder repairs applied; all
+C15 entries of KNOWN_FINDINGS.jsonl are "fixed", so any of those defects showing up again is a VIOLATION.
+(On a tree without the D7 repair every disagreement that disappears when exactly those two validators are
+wrapped with the repaired type test is attributed to signature int-validate-coerces.)"""
 import contextlib
 import io
 import json
@@ -47,9 +48,9 @@ def encodable(s):
 
 
 def in_model(v):
-    """False for values the model has no constructor for (text without a UTF-8 encoding)."""
+    """every value has a model counterpart (text travels as its surrogatepass UTF-8 bytes)"""
     if isinstance(v, str):
-        return encodable(v)
+        return True
     if isinstance(v, list):
         return all(in_model(x) for x in v)
     if isinstance(v, dict):
@@ -65,7 +66,7 @@ def to_sx(v):
     if isinstance(v, float):
         return ["f", str(fbits(v))]
     if isinstance(v, str):
-        return ["s", "h" + v.encode("utf-8").hex()]
+        return ["s", "h" + v.encode("utf-8", "surrogatepass").hex()]
     if isinstance(v, bytes):
         return ["y", "h" + v.hex()]
     if isinstance(v, list):
@@ -245,6 +246,8 @@ def ext_kind(v):
 # ----------------------------------------------------------------------------- real side
 
 def exc_name(e):
+    if isinstance(e, UnicodeError):      # UnicodeEncodeError / UnicodeDecodeError are ValueErrors
+        return "E:ValueError"
     return "E:" + type(e).__name__
 
 
@@ -483,9 +486,14 @@ def enc_cases(rng, n_extra):
     """(class name, how, argument) for every Opcode subclass of the live module"""
     from fickling import fickle
     ints = [0, 1, 2, 5, 127, 128, 255, 256, 65535, 65536, 2 ** 31 - 1, 2 ** 31, 2 ** 32, -1, -5, -128, -129,
-            -2 ** 31, -2 ** 31 - 1, 321987, 10 ** 20]
+            -2 ** 31, -2 ** 31 - 1, 321987, 10 ** 20,
+            # LONG1 count boundary: payloads of 127, 128, 255 and 256 bytes
+            2 ** 1007, 2 ** 1015, -2 ** 1015, -2 ** 1015 - 1, 2 ** 2031, 2 ** 2039, -2 ** 2039, -2 ** 2039 - 1]
     texts = ["", "abc", "a b", "123", "é", "€", "\U0001f600", "a\nb", "a\rb", "a\\b", "\\u0041", "\x00\x1f", "\x7f",
-             "\x80", "it's", 'say "x"', "x" * 255, "x" * 256, "é" * 128]
+             "\x80", "it's", 'say "x"', "x" * 255, "x" * 256, "é" * 128, "\ud800", "a\udc80b", "\ud83d\ude00",
+             "\t", "'\"", "\xff\x00", "\x1a", "\\U0001f600", "ends\\", "\u0100\uffff\U00010000\U0010ffff"]
+    bad_utf8 = [b"\xff", b"\xc0\x80", b"\xc3", b"\xe0\x80\x80", b"\xf4\x90\x80\x80", b"a\x80", b"\xed\xa0\x80",
+                b"\xf8\x88\x80\x80\x80", b"\xe2\x82"]
     bytess = [b"", b"abc", b"12", b"\x00\xff", b"a\nb", b"x" * 255, b"x" * 256]
     cases = []
     for name, cls in fickle.OPCODES_BY_NAME.items():
@@ -521,8 +529,11 @@ def enc_cases(rng, n_extra):
         elif rd in ("read_unicodestring1", "read_unicodestring4", "read_unicodestring8", "read_unicodestringnl"):
             pool = texts + [rng.choice(TEXTS) for _ in range(n_extra)]
             for t in pool:
-                cases.append((cn, "init", t.encode("utf-8")))
+                cases.append((cn, "init", t.encode("utf-8", "surrogatepass")))
                 cases.append((cn, "init", t))
+            if rd == "read_unicodestringnl":
+                for b in bad_utf8:
+                    cases.append((cn, "init", b))
         elif rd in ("read_stringnl", "read_string1", "read_string4", "read_stringnl_noescape"):
             pool = texts + [rng.choice(TEXTS) for _ in range(n_extra)]
             for t in pool:
@@ -547,8 +558,6 @@ def enc_query(case):
         a = arg
     if a is None:
         return sx(["c15_enc", cn, ["o"]])
-    if isinstance(a, str) and not encodable(a):
-        return None
     return sx(["c15_enc", cn, to_sx(a)])
 
 
@@ -602,11 +611,11 @@ def main(tier, seed):
 
     # ---------------- corpus
     consts = list(INT_EDGES) + [True, False] + FLOATS + TEXTS + BYTESS + big_values()
-    consts += [gen_const(rng) for _ in range(n_new)]
+    consts += SURROGATES + [gen_const(rng, True) for _ in range(n_new)]
     values = [[], {}, [[]], [{}], {"a": []}, {"a": {}}, {1: {}, 2: []}, [[], {}, [[]]], {"k": [1, {"z": []}]},
               [1, "1", b"1", 1.0, True], {1: "a", "1": "b", b"1": "c", 1.5: "d"}, None, (1,), [None], {"a": None},
               {(1, 2): 3}, [1, [2, [3, [4, [5]]]]]]
-    values += [gen_value(rng) for _ in range(n_build)]
+    values += [["\ud800", {"\udfff": "a\udc80b"}]] + [gen_value(rng, 0, True) for _ in range(n_build)]
     ecases = enc_cases(rng, n_extra)
     srcs = ["1+1", "'abc'", "print('é')", "'a\\nb'", "'€'", "a\nb", "'\\u0041'", "x = \"q\"", "", " ", "'\U0001f600'",
             "0", "a\\b", "\x01", "a\rb", "\x7f", "\x80"] + [t for t in TEXTS if encodable(t) and len(t) < 40]
